@@ -208,6 +208,8 @@ func checkC18(c *Ctx) {
 	r.Floor("C18.3c-failure-reported", 40)
 	c.checkFailureReported("server/db/mysql")
 	c.checkFailureReported("server/db/postgres")
+	c.checkNoNestedTransaction()
+	c.checkCommitErrorReported()
 
 	// (4) sibling agreement
 	r.Floor("C18.4-adapters-agree", 1)
